@@ -278,6 +278,10 @@ func (g *generator) walkEnum(schema *openapi3.Schema) (ast.Type, error) {
 		return ast.Type{}, fmt.Errorf("enum without a type")
 	}
 
+	if len(schema.Enum) == 0 {
+		return ast.Type{}, fmt.Errorf("enum with no values")
+	}
+
 	enumType, err := getEnumType(schema.Type.Slice()[0])
 	if err != nil {
 		return ast.Type{}, err
@@ -295,6 +299,10 @@ func (g *generator) walkEnum(schema *openapi3.Schema) (ast.Type, error) {
 }
 
 func (g *generator) walkDisjunctions(schemaRefs []*openapi3.SchemaRef, discriminator string, mapping map[string]string) (ast.Type, error) {
+	if len(schemaRefs) == 0 {
+		return ast.Type{}, fmt.Errorf("oneOf/anyOf with no branches")
+	}
+
 	typeDefs := make([]ast.Type, 0, len(schemaRefs))
 	for _, schemaRef := range schemaRefs {
 		def, err := g.walkSchemaRef(schemaRef)
